@@ -63,6 +63,10 @@ CHECKS["C16"] = dict(level="model_checking", design="4/C16, 3.2, 3.4", technique
     text="DSL half: Render in spec/DslLayout.tla yields the zero-based (line, column) of every lexeme under every layout; for the listener-raised errors of the C09 catalogue the reported position must be the position of the offending name lexeme; every positioned error of every rejected catalogue document and of seeded truncations / one-character edits must lie inside the input. Merge half: spec/Merge.tla renders module files (tight and loose layout) and knows the line of every declaration; every conflict reported by the real merger over the Merge universe and random sets must name the file and a line on which the conflicting declaration stands.",
     note=DSL_NOTE + " Columns of merge errors are not part of the statement and are not compared.")
 
+CHECKS["C17"] = dict(level="model_checking", design="4/C17, 3.7", technique="PG(M) fold and an API automaton (Build ; Reverse^k with queries) in TLA+; TLC checks ReverseInvolution / PathDuality and prints every state; the same call sequences are executed on the real graph and compared state by state",
+    text="spec/PlainGraph.tla mirrors parseModel (nodes in creation order = gonum ids, typed lines drawn from users to relations, skipped TTU parents) and the API as an automaton over (graph, direction); TLC checks ReverseInvolution, PathDuality, ReverseFlipsEveryLine, DrawnFromUsersToRelations in every state of Build ; Reverse^3/4 for the shape-menu universe and seeded random models. The real graph (each model shaped DSL-style and API-style) must show in every state the predicted nodes with ids, the typed-edge multiset, direction, PathExists for ALL pairs of public labels (also checked as transposes between g and its reverse), exact label lookup, and the cycle flags for pure computed cycles / acyclic models; DOT identical over 20-50 builds, Reversed() DOT unique, double reversal restores the DOT text.",
+    note="Trusted: TLC, PG(M) as the reading of 'as the rewrite dictates'. DOT text is compared between runs, not predicted. The cycle clause is checked only for the two cases the statement fixes. Cycle flags are read through a verif-tagged accessor.")
+
 NOT_YET = "check not built yet in this round (see DESIGN.md section 9 for the order of work)"
 
 
